@@ -565,6 +565,9 @@ def check_history(ops, want_prop=None, tolerate=()):
         op = full[idx] if nexec < len(full) else ["<end-of-history>"]
         what = _asan_summary(tail) if status == 77 else ("signal %s" % sig if sig else "exit status %s" % status)
         cls = ("asan:" + what.split(": ", 1)[-1].split()[0]) if status == 77 else ("crash" if sig else "abnormal-exit")
+        if sig in (24, 9) and status != 77:
+            # SIGXCPU / SIGKILL from the CPU-time limit of the executor: the operation did not terminate
+            what, cls = "did not terminate (10 s of CPU time used; a history takes milliseconds)", "hang"
         pp = prop_of_op(op[0]) if op[0] != "<end-of-history>" else "C01"
         viol.append((pp, cls, "op %d `%s`: %s" % (idx, " ".join(op), what), idx))
     elif not crashed and not viol and nexec >= len(full) + 2:
